@@ -443,6 +443,32 @@ static void struct_fields(mon::Rng& rng)
     field<E32>("e", soff, offsetof(GMS, e), rng, [](auto p) -> auto& { return p->e; });
     field<unsigned short>("us", soff, offsetof(GMS, us), rng, [](auto p) -> auto& { return p->us; });
     field<long>("arr[1]", soff, offsetof(GMS, arr) + sizeof(typename Cfg::L), rng, [](auto p) -> auto& { return p->arr[1]; });
+    // the struct loaded as a whole (converting constructor, copy_and_verify on the struct pointer): every field, the data
+    // pointer included, must decode exactly as the field-wise loads above do -- relative to THIS sandbox
+    for (int round = 0; round < mon::tier(6, 60); round++) {
+      GMS img;
+      std::memset(&img, 0, sizeof img);
+      uint64_t poff = 8 * (1 + rng.below(R.size / 8 - 2));
+      img.c = 'q'; img.l = 1234 + round; img.s = -7; img.ull = 99; img.d = 2.5; img.p = static_cast<P>(poff); img.b = true; img.uc = 200; img.arr[0] = 5; img.arr[1] = -6; img.fl = 1.5f; img.fn = 0; img.e = EV_C; img.us = 200;
+      std::memcpy(R.mem() + soff, &img, sizeof img);
+      auto ps = Wd::tptr<MS>(*SB, soff);
+      auto judge_whole = [&](const char* op, tainted<MS, S>& t) {
+        mon::evals();
+        uintptr_t gotp = reinterpret_cast<uintptr_t>(t.p.UNSAFE_unverified());
+        bool ok = gotp == R.base + poff && t.c.UNSAFE_unverified() == 'q' && t.l.UNSAFE_unverified() == 1234 + round && t.s.UNSAFE_unverified() == -7 && t.ull.UNSAFE_unverified() == 99 &&
+                  t.d.UNSAFE_unverified() == 2.5 && t.b.UNSAFE_unverified() == true && t.uc.UNSAFE_unverified() == 200 && t.arr[0].UNSAFE_unverified() == 5 && t.arr[1].UNSAFE_unverified() == -6 &&
+                  t.fl.UNSAFE_unverified() == 1.5f && t.fn.UNSAFE_unverified() == nullptr && t.e.UNSAFE_unverified() == EV_C && t.us.UNSAFE_unverified() == 200;
+        if (ok) { n_load_ok++; return; }
+        report(op, "struct MS", "wrong-decoding",
+               mon::fmt("%s: whole-struct load of the image at offset %llu: pointer field holds the representation %llu = base+%llu, loaded as %p (base is %p)%s", Cfg::name, (unsigned long long)soff,
+                        (unsigned long long)poff, (unsigned long long)poff, (void*)gotp, (void*)R.base, gotp == R.base + poff ? "; another field differs" : ""));
+      };
+      mon::ctx("load/whole-struct/convert-to-tainted | off=%llu", (unsigned long long)soff);
+      { tainted<MS, S> t; bool ab = mon::aborts([&] { t = *ps; }); if (ab) report("load-whole-struct", "struct MS", "spurious-abort", Cfg::name); else judge_whole("load-whole-struct", t); }
+      mon::ctx("load/whole-struct/copy_and_verify-pointer | off=%llu", (unsigned long long)soff);
+      { tainted<MS, S> t; bool ab = mon::aborts([&] { ps.copy_and_verify([&](std::unique_ptr<tainted<MS, S>> v) { t = *v; return 0; }); }); if (ab) report("load-whole-struct-copy_and_verify", "struct MS", "spurious-abort", Cfg::name); else judge_whole("load-whole-struct-copy_and_verify", t); }
+    }
+    std::memset(R.mem() + soff, 0, sizeof(GMS));
   }
 }
 
